@@ -361,10 +361,10 @@ Proof.
       * congruence.
       * rewrite H2 in Hst. destruct Hst; discriminate.
       * rewrite H1 in Hst. destruct Hst; discriminate.
-      * destruct H6 as [d Hd]. rewrite Hd. apply (dl_ok_add s s' d En).
+      * rewrite H6. destruct (j_sched (jc c j)); [exact I|]. apply (dl_ok_add s s' _ En).
       * rewrite H5 in Hst. destruct Hst; discriminate.
       * destruct Hst as [E|E]; rewrite E in H3; discriminate.
-      * destruct H7 as [d Hd]. rewrite Hd. apply (dl_ok_add s s' d En).
+      * rewrite H7. cbn. rewrite En. lia.
       * rewrite H2 in Hst. destruct Hst; discriminate.
       * rewrite H3 in Hst. destruct Hst; discriminate.
     + intros n Hp. destruct (run_clock_step lvl c s e s' n Hs) as [[He Hi]|(o & _ & He & _)].
